@@ -14,6 +14,8 @@ import (
 	"wa-lang.org/wa/internal/native/abi"
 	"wa-lang.org/wa/internal/native/loong64"
 	"wa-lang.org/wa/internal/native/riscv"
+	"wa-lang.org/wa/internal/native/x64"
+	"wa-lang.org/wa/internal/native/x64/x86asm"
 )
 
 type Case struct {
@@ -152,9 +154,129 @@ func one(c *Case) (r Res) {
 	return
 }
 
+// ---- x86-64 (X64ModRM.tla) ----
+
+type XCase struct {
+	ID   int    `json:"id"`
+	Op   string `json:"op"`
+	Form string `json:"form"`
+	Reg  int    `json:"reg"`
+	Base int    `json:"base"`
+	Disp int64  `json:"disp"`
+}
+
+type XRes struct {
+	ID       int    `json:"id"`
+	Accepted bool   `json:"accepted"`
+	Err      string `json:"err"`
+	Panic    string `json:"panic"`
+	Code     []int  `json:"code"`
+	DecErr   string `json:"dec_err"`
+	DecLen   int    `json:"dec_len"`
+	DecOp    string `json:"dec_op"`
+	DecText  string `json:"dec_text"`
+	DecDst   string `json:"dec_dst"` // "reg:N" or "mem:BASE:DISP"
+	DecSrc   string `json:"dec_src"`
+}
+
+var xops = map[string]abi.As{"add": x64.AADD, "or": x64.AOR, "and": x64.AAND, "sub": x64.ASUB, "xor": x64.AXOR, "cmp": x64.ACMP, "mov": x64.AMOV, "lea": x64.ALEA}
+
+func xarg(a x86asm.Arg) string {
+	switch v := a.(type) {
+	case x86asm.Reg:
+		if v >= x86asm.RAX && v <= x86asm.R15 {
+			return fmt.Sprintf("reg:%d", int(v-x86asm.RAX))
+		}
+		return "reg:" + v.String()
+	case x86asm.Mem:
+		if v.Base >= x86asm.RAX && v.Base <= x86asm.R15 && v.Index == 0 && v.Segment == 0 {
+			return fmt.Sprintf("mem:%d:%d", int(v.Base-x86asm.RAX), int64(int32(v.Disp)))
+		}
+		return "mem:" + v.String()
+	}
+	return fmt.Sprint(a)
+}
+
+func xone(c *XCase) (r XRes) {
+	r.ID = c.ID
+	r.Code = []int{}
+	reg := &abi.X64Operand{Kind: abi.X64Operand_Reg, Reg: x64.REG_RAX + abi.RegType(c.Reg)}
+	var arg *abi.X64Argument
+	switch c.Form {
+	case "regreg":
+		arg = &abi.X64Argument{Dst: reg, Src: &abi.X64Operand{Kind: abi.X64Operand_Reg, Reg: x64.REG_RAX + abi.RegType(c.Base)}}
+	case "load":
+		arg = &abi.X64Argument{Dst: reg, Src: &abi.X64Operand{Kind: abi.X64Operand_Mem, Reg: x64.REG_RAX + abi.RegType(c.Base), PtrTyp: abi.X64QWordPtr, Offset: c.Disp}}
+	default:
+		arg = &abi.X64Argument{Dst: &abi.X64Operand{Kind: abi.X64Operand_Mem, Reg: x64.REG_RAX + abi.RegType(c.Base), PtrTyp: abi.X64QWordPtr, Offset: c.Disp}, Src: reg}
+	}
+	var code []byte
+	func() {
+		defer func() {
+			if p := recover(); p != nil {
+				r.Panic = fmt.Sprint(p)
+			}
+		}()
+		b, err := x64.Encode(xops[c.Op], arg)
+		if err != nil {
+			r.Err = err.Error()
+			return
+		}
+		r.Accepted, code = true, b
+	}()
+	if !r.Accepted {
+		return
+	}
+	for _, b := range code {
+		r.Code = append(r.Code, int(b))
+	}
+	// the bytes of a following instruction, so that a decoder that runs past the end is seen
+	tail := []byte{0x48, 0x89, 0xd8, 0xc3, 0x90, 0x90, 0x90, 0x90, 0x90, 0x90, 0x90, 0x90}
+	func() {
+		defer func() {
+			if p := recover(); p != nil {
+				r.DecErr = fmt.Sprint("panic: ", p)
+			}
+		}()
+		inst, err := x86asm.Decode(append(append([]byte{}, code...), tail...), 64)
+		if err != nil {
+			r.DecErr = err.Error()
+			return
+		}
+		r.DecLen, r.DecOp, r.DecText = inst.Len, strings.ToLower(inst.Op.String()), x86asm.IntelSyntax(inst, 0, nil)
+		if inst.Args[0] != nil {
+			r.DecDst = xarg(inst.Args[0])
+		}
+		if inst.Args[1] != nil {
+			r.DecSrc = xarg(inst.Args[1])
+		}
+	}()
+	return
+}
+
+func cmdX64() {
+	dec := json.NewDecoder(bufio.NewReaderSize(os.Stdin, 1<<20))
+	w := bufio.NewWriter(os.Stdout)
+	defer w.Flush()
+	for dec.More() {
+		var c XCase
+		if err := dec.Decode(&c); err != nil {
+			fmt.Fprintln(os.Stderr, "bad case:", err)
+			os.Exit(2)
+		}
+		b, _ := json.Marshal(xone(&c))
+		w.Write(b)
+		w.WriteByte('\n')
+	}
+}
+
 func main() {
+	if len(os.Args) >= 2 && os.Args[1] == "x64" {
+		cmdX64()
+		return
+	}
 	if len(os.Args) < 2 || os.Args[1] != "run" {
-		fmt.Fprintln(os.Stderr, "usage: enc run")
+		fmt.Fprintln(os.Stderr, "usage: enc run|x64")
 		os.Exit(2)
 	}
 	dec := json.NewDecoder(bufio.NewReaderSize(os.Stdin, 1<<20))
